@@ -17,6 +17,15 @@ from collections import Counter
 
 PROP = "C04"
 REAL_LIMIT = 1 << 16
+# generated twins (DESIGN §11.3): coo_append / coo_sum_duplicates / merge_sum_duplicates / merge_all_sum_duplicates /
+# coo_increase_mem regenerated from the repository's current source and compared inside Lean with the index-level
+# model Coo.* (about which Props/C04 is proved): every append sequence over a 3-cell (2-cell) alphabet up to
+# length 5 (9), every capacity x sort limit listed, after every append and after the finalisation of every prefix:
+# live (key, summed value) entries, ind, then the raw row/col/val/key/min arrays and depth; failing must agree too.
+TWIN_CHECKS = [
+    {"op": "twin.coo_exhaustive", "caps": [2, 3, 4, 5, 6, 7, 8, 9], "lims": [1, 2, 3, 4, 8], "nkeys": 3, "n": 5},
+    {"op": "twin.coo_exhaustive", "caps": [2, 3, 5, 8], "lims": [1, 2, 3], "nkeys": 2, "n": 9},
+]
 RULE = ("kernel cases: random/steered operation sequences (appends with keys from a small alphabet so that "
         "duplicates abound, explicit coo_sum_duplicates / finalisation in between) on buffers of capacity 2..40 "
         "(and > 65536 at the real limit) with COO_QUICKSORT_LIMIT in {4, 8, 64, 65536}, incl. >= 1000 sort rounds "
@@ -467,11 +476,19 @@ def _ran(case, outs):
     return [(m, outs[m]) for m in case["modes"] if m in outs and not (isinstance(outs[m], dict) and outs[m].get("skip"))]
 
 
+def _twin_sample(case):
+    return case["kind"] == "kernel" and len(case["ops"]) <= 3000 and case["cap"] <= 64
+
+
 def model_requests(case, outs):
     if case["kind"] == "kernel":
         return [{"op": "coo.run", "cap": case["cap"], "lim": case["lim"], "ops": case["ops"],
                  "every": case["every"], "raw": case["raw"]},
-                {"op": "coo.refine", "cap": case["cap"], "lim": case["lim"], "ops": case["ops"]}]
+                {"op": "coo.refine", "cap": case["cap"], "lim": case["lim"], "ops": case["ops"]}] + (
+            # the same operation sequence through the regenerated twin (source -> Lean interpreter): compiled kernels
+            # vs twin validates the translator and the interpreter on this family
+            [{"op": "twin.coo_run", "cap": case["cap"], "lim": case["lim"], "ops": case["ops"],
+              "every": case["every"], "raw": case["raw"]}] if _twin_sample(case) else [])
     if case["kind"] == "est":
         sizes = [sum(len(m) for m in d) if case["vec"] == "multiset" else len(d) for d in case["docs"]]
         return [{"op": "coo.chunks", "sizes": sizes, "n": n} for n in sorted({c[0] for c in case["configs"]})]
@@ -481,10 +498,26 @@ def model_requests(case, outs):
 def compare(case, outs, resps):
     d = []
     if case["kind"] == "kernel":
-        run, ref = resps
+        run, ref = resps[:2]
         for r in (run, ref):
             if "bad" in r:
                 return [f"model rejected request: {r['bad']}"]
+        tw = resps[2] if len(resps) > 2 and "bad" not in resps[2] else None     # "bad" = twin unavailable: not a disagreement
+        if tw is not None:
+            for m, o in _ran(case, outs):
+                if "crash" in o or "exc" in o or tw["err"] is not None:
+                    if tw["err"] is not None and (m.startswith("bc") or m.startswith("nojit")) and "exc" not in o and "crash" not in o:
+                        d.append(f"[{m}] generated twin fails ({tw['err']} at op {tw['err_at']}), checked impl does not")
+                    continue
+                if len(o["states"]) != len(tw["states"]):
+                    d.append(f"[{m}] {len(o['states'])} impl states vs {len(tw['states'])} generated-twin states")
+                    continue
+                for a, b in zip(o["states"], tw["states"]):
+                    keys = ["i", "abs"] + (["ind", "depth", "cap", "mcap", "mins", "live"] if case["raw"] else [])
+                    bad = [k for k in keys if a.get(k) != b.get(k)]
+                    if bad:
+                        d.append(f"[{m}] after op {a['i']}: {bad[0]} impl {str(a.get(bad[0]))[:200]} != generated twin {str(b.get(bad[0]))[:200]}")
+                        break
         for m, o in _ran(case, outs):
             if "crash" in o:
                 if run["err"] is None:
